@@ -235,6 +235,7 @@ class Circuit:
             raise ModeRangeError("Circuit to add is outside of mode range")
 
         # Include any existing internal modes into the circuit to be added
+        passthrough: list[int] = []
         for i in sorted(self.__internal_modes):
             # Need to account for shifts when adding new heralds
             target_mode = i - mode
@@ -243,6 +244,7 @@ class Circuit:
                     target_mode += 1
             if 0 <= target_mode < circuit.n_modes:
                 spec = circuit._add_empty_mode(spec, target_mode)
+                passthrough.append(target_mode)
         # Then add new modes for heralds from circuit and also add swaps to
         # enforce that the input and output herald are on the same mode
         provisional_swaps = {}
@@ -264,9 +266,15 @@ class Circuit:
             # If used as a key then take value from provisional swaps
             if i in provisional_swaps:
                 swaps[i] = provisional_swaps[i]
+            # Pass-through modes of existing heralds are left in place
+            elif i in passthrough:
+                continue
             # Otherwise then map mode to lowest mode possible
             else:
-                while current_mode in provisional_swaps.values():
+                while (
+                    current_mode in provisional_swaps.values()
+                    or current_mode in passthrough
+                ):
                     current_mode += 1
                 if i != current_mode:
                     swaps[i] = current_mode
